@@ -165,6 +165,11 @@ class Analyzer:
             v = ev(st.value)
             for t in st.targets:
                 self.bind(t, v, env, seeds, st)
+                # D[k] = v with k an absolute epoch: D is keyed by absolute time (what `.items()` / iteration yields)
+                if isinstance(t, ast.Subscript) and isinstance(t.value, ast.Name) and not isinstance(t.slice, ast.Slice):
+                    kv = flat(ev(t.slice))
+                    if kv >= ABS and kv != TAINT:
+                        env[t.value.id] = join(env.get(t.value.id, NONE), kv)
             return None
         if isinstance(st, ast.AugAssign):
             fake = ast.BinOp(left=_load(st.target), op=st.op, right=st.value)
@@ -185,6 +190,15 @@ class Analyzer:
                 item = ev(c.args[-1])
                 nm = c.func.value.id
                 env[nm] = join(env.get(nm, NONE), item) if env.get(nm, NONE) != NONE or nm in env else item
+            elif isinstance(c, ast.Call) and isinstance(c.func, ast.Attribute) and c.func.attr in ("append", "extend", "add", "insert") \
+                    and isinstance(c.func.value, ast.Subscript) and isinstance(c.func.value.value, ast.Name) and c.args:
+                # D[k].append(v): D holds v, and is keyed by k
+                nm = c.func.value.value.id
+                kv = flat(ev(c.func.value.slice)) if not isinstance(c.func.value.slice, ast.Slice) else NONE
+                item = flat(ev(c.args[-1]))
+                for x in (kv, item):
+                    if x >= ABS:
+                        env[nm] = join(env.get(nm, NONE), x)
             if isinstance(c, ast.Yield) or isinstance(c, ast.YieldFrom):
                 return ev(c.value) if c.value is not None else NONE
             return None
